@@ -8,6 +8,35 @@ ROOT = os.path.dirname(os.path.dirname(os.path.abspath(__file__)))
 PY = "/venv/bin/python"
 
 CLAIMED = {
+    "C04": dict(
+        category="exploration",
+        text=("Fault injection at the expression seam: every pipe alternative, guard, define, attribute, repeat source, "
+              "case value and interpolation of a generated template is a simulator-owned probe that returns or raises a "
+              "chosen class (8 the pipe must catch, 9 it must not, 4 outside Exception). A reference interpreter "
+              "predicts the exact probe-call history (exactly-once, order, never-if-unreached in one comparison) and "
+              "the result or propagated (class, args). Only the fault-dependent clauses of C04 are claimed: which "
+              "classes fall through a pipe / exists:, and evaluation count and order while failures, guards, switch/"
+              "case and on-error recovery steer control flow. Prefix dispatch, name resolution order and attribute->"
+              "item fallback are NOT decided by this technique (pure functions of the input). Sampled: evidence, not proof."),
+        design_ref="DESIGN.md 3.1",
+        note=("Trusted: sim/model.py (reference interpreter written from docs/reference.rst and the property statement) "
+              "for the generated subset; expressions are built from probe calls only, so the python sub-grammar of the "
+              "quantifier (comprehensions, lambdas, f-strings) is not exercised."),
+        technique="deterministic fault injection at the expression-evaluation seam with a reference interpreter as history oracle",
+    ),
+    "C13": dict(
+        category="fault_enumeration",
+        text=("Generated templates with tal:on-error on about half of the elements (nested up to depth 3 below the "
+              "root, with omit-tag, repeat, define, condition, switch/case, content/replace, attributes in between); "
+              "per template 47 fault plans make sets of 1-3 evaluation points raise (first/middle/last expression, "
+              "inside and after inner handlers, in the fallback expression; classes inside and outside Exception) with "
+              "on_error_handler absent / recording / failing. The reference interpreter predicts output text, handler "
+              "calls and the propagated exception. Sampled plans per template: evidence, not proof."),
+        design_ref="DESIGN.md 3.3",
+        note=("Trusted: sim/model.py for the generated subset. Macros and i18n blocks between nested handlers are not "
+              "generated yet; error.lineno/offset are not compared."),
+        technique="deterministic fault injection (sets of failing evaluation points) with a reference interpreter as output oracle",
+    ),
     "C14": dict(
         category="exploration",
         text=("(a) 2-3 real threads under a seeded baton scheduler share string templates, lazily compiled file "
@@ -58,9 +87,7 @@ CLAIMED = {
 }
 
 PENDING = {
-    "C04": "claimed by design (DESIGN 3.1) but its check is not built yet in this commit",
     "C12": "claimed by design (DESIGN 3.2) but its check is not built yet in this commit",
-    "C13": "claimed by design (DESIGN 3.3) but its check is not built yet in this commit",
 }
 
 NOT_APPLICABLE = {
